@@ -413,8 +413,17 @@ def run(ctx):
                         res.violations.append({**info, "kind": "broadcast: peer %d got %s expected %s" % (pi, newf, wantf)})
                 # the miner's next request builds on its own block
                 w.sent.clear()
-                w.handle_request_scrypt_input_message(0, 1)
-                if w.sent[-1][1][0].previous_block_hash != cand.hash():
+                try:
+                    w.handle_request_scrypt_input_message(0, 1)
+                except Exception as e:
+                    # (the pending transactions the found block confirmed must be gone from what the next candidate is built from)
+                    res.violations.append({**info, "kind": "after a found block was adopted, assembling the next candidate raised "
+                                                           "%r: pending transactions handed to the miner: %d, of which confirmed "
+                                                           "by the found block: %d"
+                                           % (e, len(rn.cm.transaction_pool),
+                                              len([t for t in rn.cm.transaction_pool if t.hash() in {x.hash() for x in cand.transactions}]))})
+                    w.sent.append(("x", (cand.header.summary, 0)))
+                if w.sent and w.sent[-1][1][0].previous_block_hash != cand.hash() and w.sent[-1][0] != "x":
                     res.violations.append({**info, "kind": "the miner forgot its own block on the next request"})
                 tree.adopt(cand)
             if len(res.samples) < 4:
